@@ -563,6 +563,9 @@ class RoiSubsetStateNd(SubsetState):
         self._roi.move_to(*args)
         clear_all_caches()
 
+    def copy(self):
+        return RoiSubsetStateNd(atts=list(self._atts), roi=self.roi, pretransform=self.pretransform)
+
     @contract(data='isinstance(Data)', view='array_view')
     def to_mask(self, data, view=None):
 
